@@ -95,9 +95,14 @@ PROPS["C20"]["families"] = ["engine", "schedrej"]
 
 PROPS["C18"] = {"families": ["sqlstore", "sqltimeout"],
   "assumptions": ADAPTER_ASSUME + ["MySQL is replaced by sqlmini (harness/sqlmini.go): an in-process engine for exactly the statement shapes the two adapters emit, with staged transactions, a strictly increasing statement clock for now(), and a fault at any statement; MySQL's own semantics (isolation, datetime(3) ties in ORDER BY created_at, collation, unordered SELECT without ORDER BY) are not modelled (partial, as the property itself allows: 'a reference SQL engine')",
-                                   "CreatedAt is stamped by the database (created_at=now()) and is not compared; ListValid is compared away from the exact expiry instant (SQL uses expire_at < now, the property accepts either answer there); sqltimeout.List (completed=false) is not part of the property and not compared; the event-encoding failure position of Store (MakeOutboxEventData error) cannot be injected and is covered by the model only"],
+                                   "CreatedAt is stamped by the database (created_at=now()) and is not compared; ListValid is compared away from the exact expiry instant (SQL uses expire_at < now, the property accepts either answer there); sqltimeout.List (completed=false) is not part of the property and not compared; the event-encoding failure position of Store (MakeOutboxEventData error) is reached with a foreign ID that is not valid UTF-8 (op SB)"],
   "explanation": "sqlstore / sqltimeout on sqlmini vs the reference store / timer list: failure at each statement of Store (begin, select, insert|update, outbox insert, commit) for new and existing runs, random sequences, List filter/order/limit/offset grid, statement log (one transaction on the writer, placeholders = arguments)"}
 
+# C05's first clause ("every record write leaves exactly one pending outbox entry", anchored in memrecordstore.Store): the in-memory
+# store's Store is atomic also when the entry cannot be built (op SB: foreign ID that is not valid UTF-8)
+PROPS["C05"]["families"] = ["engine", "memstore"]
+PROPS["C05"]["assumptions"] = PROPS["C05"]["assumptions"] + ADAPTER_ASSUME
+PROPS["C05"]["explanation"] += "; memrecordstore.Store vs the reference store incl. Stores whose outbox entry cannot be encoded (nothing stored)"
 PROPS["C11"]["families"] = ["engine", "memroles"]
 PROPS["C11"]["assumptions"] = PROPS["C11"]["assumptions"] + ["memrolescheduler: goroutine / mutex semantics are modelled as a transition system (coq/model/MemRoles.v), not Go's memory model; the harness observes overlap with counters under real goroutine schedules (an acceptor: the winner among waiters is not determined)"]
 
@@ -110,3 +115,10 @@ PROPS["C10"]["explanation"] += "; connector event IDs: int64(fnv64(ID)) of the r
 PROPS["C10"]["families"] = ["shard", "launch", "connrt", "engine"]
 PROPS["C10"]["assumptions"] = PROPS["C10"]["assumptions"] + ENGINE_ASSUME
 PROPS["C10"]["explanation"] += "; connector consumers in the engine harness (1..3 shards, default count, two instances) under faults, crashes and rewinds: every connector event handled by exactly its own shard"
+
+# two workflows sharing the bundled in-memory adapters (real goroutines): roles, receiver names, topics, timers and outbox listings
+# must keep them apart; the answer each gives alone is what the engine theorems say of one workflow
+for _pid in ("C01", "C10", "C14"):
+    PROPS[_pid]["families"] = PROPS[_pid]["families"] + ["twowf"]
+    PROPS[_pid]["explanation"] += "; two workflows of different names on ONE in-memory streamer / record store / role scheduler / timeout store: every run of both completes and every hook runs to success"
+    PROPS[_pid]["assumptions"] = PROPS[_pid]["assumptions"] + ["twowf: real goroutines on the in-memory adapters; 'completed' is awaited with a bound (6 s, repeated once with 40 s; a rejected case is re-run by check)"]
